@@ -229,7 +229,7 @@ def helper(case):
     for e in range(case["examples"]):
         n = rnd.choice([1, 2, 3, 4, 5, 12])
         ps = [rnd.choice([rnd.uniform(-100, 200), -100.0, -100.0000001, -99.5, 1e5, 1e5 + 1, 9.37e36, 9.97e36, -1e9, 0.0, rnd.uniform(-100, -99), rnd.uniform(-150, -100),
-                          10 ** rnd.uniform(5.0001, 12), rnd.uniform(200, 1e5)]) for _ in range(n)]
+                          10 ** rnd.uniform(5.0001, 12), rnd.uniform(200, 1e5), float("inf"), float("-inf"), float("nan")]) for _ in range(n)]
         weighted = rnd.random() < 0.6
         if weighted:
             w = [rnd.choice([0.0, rnd.random()]) for _ in range(n)]
@@ -254,9 +254,9 @@ def helper(case):
             bad("helper_rejects_valid_input", "percentages %s weights %s: AssertionError %s" % (ps, [round(x, 4) for x in w], str(err)[:60]), percentages=ps, weights=w)
             continue
         data = {"percentages": ps, "weights": w, "result": got, "container": form}
-        if list(cp) != ps or list(cw) != w:
+        if [repr(float(x)) for x in cp] != [repr(float(x)) for x in ps] or [repr(float(x)) for x in cw] != [repr(float(x)) for x in w]:
             bad("helper_modifies_its_input", "%s input %s became %s (weights %s -> %s)" % (form, ps, list(cp), [round(x, 4) for x in w], [round(float(x), 4) for x in cw]), **data)
-        if again != got:
+        if again != got and not (again != again and got != got):
             bad("average_changes_when_called_again", "same %s handed in twice: first %r then %r (inputs %s)" % (form, got, again, ps), **data)
         if vw <= 1e-12:
             if got != SENTINEL and not (len(valid) and vw == 0 and got == SENTINEL):
@@ -270,7 +270,7 @@ def helper(case):
         if got == SENTINEL:
             bad("sentinel_although_valid_values", "valid values %s with weight %.4f but the sentinel was returned" % ([p for p, _ in valid][:4], vw), **data)
             continue
-        if got < lo - 1e-9 * max(1.0, abs(lo)) or got > hi + 1e-9 * max(1.0, abs(hi)):
+        if not (got >= lo - 1e-9 * max(1.0, abs(lo)) and got <= hi + 1e-9 * max(1.0, abs(hi))):  # (a nan result fails this too)
             bad("average_outside_range_of_valid_inputs", "result %.6f outside [%.6f, %.6f] of the valid inputs (inputs %s, weights %s)" % (got, lo, hi, [round(p, 4) if abs(p) < 1e6 else p for p in ps], [round(x, 4) for x in w]), **data)
         elif abs(got - want) > 1e-9 * max(1.0, abs(want)):
             bad("average_differs_from_renormalised_mean", "result %.9f, renormalised mean of the valid values %.9f" % (got, want), **data)
